@@ -349,6 +349,7 @@ func (fr *frame) unop(x *ssa.UnOp, st *State, reach string) {
 		s := ft.g.reg.SortOf(elem)
 		c := ft.fresh("ld_"+x.Name(), s)
 		ft.fact("(= " + c + " " + ft.load(pl, st) + ")")
+		ft.valueInv(c, x.Type(), 0)
 		fr.vals[x] = Val{T: c, Ty: x.Type()}
 	case token.NOT:
 		fr.vals[x] = Val{T: "(not " + fr.asValue(fr.val(x.X), st) + ")", Ty: x.Type()}
@@ -467,8 +468,9 @@ func (fr *frame) equal(l, r string, lt, rt types.Type, x *ssa.BinOp) string {
 		}
 	}
 	if s == "Str" {
-		// Go string equality is content equality: equal terms, or (when contents are known equal) extensionally equal
-		return "(streq " + l + " " + r + ")"
+		// Go string equality is content equality (= on Str); plant the witness term so that
+		// "different strings differ in length or at some index" can be used
+		fr.ft.fact("(" + g.hintFn("Int") + " (sdiff " + l + " " + r + "))")
 	}
 	return "(= " + l + " " + r + ")"
 }
@@ -503,8 +505,12 @@ func (fr *frame) convert(x *ssa.Convert, st *State) {
 			}
 		}
 		fr.vals[x] = Val{T: t, Ty: x.Type()}
-	case from == "Str" && to == "Str":
+	case from == to && (from == "Str" || from == "Bytes"):
 		fr.vals[x] = Val{T: v, Ty: x.Type()}
+	case from == "Str" && to == "Bytes":
+		fr.vals[x] = Val{T: "(tobytes " + v + ")", Ty: x.Type()}
+	case from == "Bytes" && to == "Str":
+		fr.vals[x] = Val{T: "(tostring " + v + ")", Ty: x.Type()}
 	default:
 		ft.unsupported("conversion %s -> %s in %s", x.X.Type(), x.Type(), fr.fn)
 		fr.vals[x] = Val{T: ft.fresh("undef", to), Ty: x.Type()}
